@@ -298,7 +298,7 @@ func checkCtorRejections(c *Ctx, p *Prog, rule string) {
 				// failed zero-share test
 				base, neg := condOf(iff.Cond)
 				if call, isCall := base.(*ssa.Call); isCall {
-					if over, isFA := p.forAllShape(p.Callee(call)); isFA && over == "slice" && (e.Succ == 0) == neg {
+					if over, _, _, isFA := p.forAllCall(call); isFA && over == "slice" && (e.Succ == 0) == neg {
 						reason = "zero share"
 						return true
 					}
